@@ -19,6 +19,103 @@ def need(pattern, text, what):
         raise F.FactError(what)
 
 
+def _args(text, i):
+    """arguments of the call whose `(` is at text[i]: split at top-level commas"""
+    depth, cur, args, j = 0, "", [], i
+    while j < len(text):
+        c = text[j]
+        if c in "([{":
+            depth += 1
+            if depth > 1:
+                cur += c
+        elif c in ")]}":
+            depth -= 1
+            if depth == 0:
+                args.append(cur.strip())
+                return [a for a in args if a]
+            cur += c
+        elif c == "," and depth == 1:
+            args.append(cur.strip())
+            cur = ""
+        else:
+            cur += c
+        j += 1
+    return []
+
+
+def _owner(expr, body, env, seen=()):
+    """which list an expression is read from: follows `let x = E;` bindings of `body`, then maps the root identifier through `env`"""
+    e = re.sub(r"^\s*(&\s*mut\b|&|\*)\s*", "", expr.strip())
+    root = re.match(r"[A-Za-z_][A-Za-z_0-9]*", e)
+    if not root:
+        return "?"
+    r = root.group(0)
+    if r in env:
+        return env[r]
+    if r in seen:
+        return "?"
+    m = re.search(r"\blet\s+(?:mut\s+)?%s\s*(?::[^=;]*)?=\s*([^;]*);" % re.escape(r), body)
+    if m:
+        return _owner(m.group(1), body, env, seen + (r,))
+    return "?"
+
+
+def split_into_sources(t, b, rel):
+    """MorphemeList::split_into(&self, mode, index, out): where the lexicon, the field request and the input text handed to
+    ResultNode::split come from (`self` = the list that holds the token, `out` = the target), through at most one helper method
+    of the same file, and everything that is done to `out`."""
+    sig = re.search(r"\bfn\s+split_into\s*\(\s*&self\s*,\s*\w+\s*:\s*Mode\s*,\s*\w+\s*:\s*usize\s*,\s*(\w+)\s*:\s*&mut\s+Self\s*\)", t)
+    if not sig:
+        raise F.FactError("split_into: signature (&self, mode, index, out: &mut Self) not recognised")
+    outn = sig.group(1)
+    env = {"self": "self", outn: "out"}
+    body, call = b, re.search(r"\bnode\.split\s*\(", b)
+    if not call:
+        # one level of helper: `<recv>.<helper>(args)` whose body calls node.split
+        for h in re.finditer(r"\b(self|%s)\.(\w+)\s*\(" % re.escape(outn), b):
+            try:
+                hb = F.fn_body(t, h.group(2), rel)
+            except F.FactError:
+                continue
+            hc = re.search(r"\b\w+\.split\s*\(\s*mode\b", hb)
+            hs = re.search(r"\bfn\s+%s\s*\(([^)]*)\)" % re.escape(h.group(2)), t)
+            if not hc or not hs:
+                continue
+            params = [p.split(":")[0].strip() for p in hs.group(1).split(",") if ":" in p]
+            actual = _args(b, h.end() - 1)
+            env = {"self": env[h.group(1)]}
+            for pn, av in zip(params, actual):
+                env[pn] = _owner(av, b, {"self": "self", outn: "out"})
+            body, call = hb, hc
+            break
+    if not call:
+        raise F.FactError("split_into: call of ResultNode::split not found (directly or through one helper)")
+    args = _args(body, body.index("(", call.start()))
+    if len(args) != 4:
+        raise F.FactError("split_into: ResultNode::split is not called with (mode, lexicon, subset, input)")
+    lex, sub, inp = (_owner(a, body, env) for a in args[1:])
+    ops = []
+    datas = [m.group(1) for m in re.finditer(r"\blet\s+(?:mut\s+)?(\w+)\s*=\s*(?:&mut\s+)?%s\.nodes\.(?:mut_data\(\)|data)\s*;" % re.escape(outn), b)]
+    for m in re.finditer(r"\b%s\.(\w+(?:\.\w+)*)\s*\(" % re.escape(outn), b):
+        ops.append(m.group(1))
+    for d in datas:
+        for m in re.finditer(r"\b%s\.(\w+)\s*\(" % re.escape(d), b):
+            ops.append("data." + m.group(1))
+    ops = sorted(set(ops))
+    mrel = "sudachi/src/analysis/morpheme.rs"
+    mb = re.sub(r"\s+", "", F.fn_body(F.strip_comments(F.src(mrel)), "split_into", mrel))
+    mm = re.fullmatch(r"(self\.list)\.split_into\(mode,(self\.index),(\w+)\)", mb)
+    txt = "(* MorphemeList::split_into(&self, mode, index, %s): the list (self = the one that holds the token, out = the target) from which\n" % outn
+    txt += "   ResultNode::split gets its lexicon / field request / input text, and the methods called on the target and its node vector *)\n"
+    txt += 'Definition split_into_lexicon_of : string := "%s".\n' % lex
+    txt += 'Definition split_into_subset_of : string := "%s".\n' % sub
+    txt += 'Definition split_into_input_of : string := "%s".\n' % inp
+    txt += "Definition split_into_target_ops : list string := [%s].\n" % "; ".join('"%s"' % o for o in ops)
+    txt += "(* Morpheme::split_into(mode, out) = self.list.split_into(mode, self.index, out) *)\n"
+    txt += "Definition morpheme_split_into_delegates : bool := %s.\n" % ("true" if mm else "false")
+    return txt
+
+
 def gen():
     out = [F.HEADER]
     out.append("Inductive cmp := CLt | CLe | CGt | CGe | CEq | CNe.\n")
@@ -48,10 +145,10 @@ def gen():
     out.append("(* split_into: `if num_splits == 0 { Ok(false) } else { ...; Ok(true) }` *)\n")
     out.append("Definition nothing_cmp : cmp * N := %s.\n" % guard(b, "num_splits", "split_into"))
     need(r"\{\s*Ok\(false\)\s*\}\s*else\s*\{", b, "split_into: `{ Ok(false) } else {` not found")
-    need(r"for\s+n\s+in\s+node\.split\(mode,\s*self\.dict\(\)\.lexicon\(\),\s*subset,\s*input\.deref\(\)\)\s*\{\s*data\.push\(n\);\s*\}\s*Ok\(true\)", b,
-         "split_into: push loop / Ok(true) not in the recognised shape")
+    need(r"\}\s*else\s*\{.*Ok\(true\)\s*\}\s*$", re.sub(r"\s+", " ", b).strip(), "split_into: the splitting branch does not end with Ok(true)")
     if re.search(r"\.clear\(\)", b):
         raise F.FactError("split_into now clears a list: the model appends to `out`")
+    out.append(split_into_sources(t, b, rel))
 
     # --- lexicon_set.rs :: update_dict_id
     rel = "sudachi/src/dic/lexicon_set.rs"
